@@ -130,6 +130,25 @@ pub fn run(job: &Value) -> Value {
             }
         }
     }
+    // a safe integer against ANY wide integer (the mixed PartialEq / PartialOrd impls): w need not be in the safe range
+    if let Some(w) = job["w"].as_str().and_then(|s| s.parse::<i128>().ok()) {
+        if let (Ok(a), Ok(b)) = (u64::try_from(v), u64::try_from(w)) {
+            if let Ok(x) = U53::try_from(a) {
+                out.insert("u53_cmpw".into(), json!(x.partial_cmp(&b).map(|o| format!("{o:?}"))));
+                out.insert("u53_eqw".into(), json!(x == b));
+                out.insert("u53_ltw".into(), json!(x < b));
+                out.insert("u53_gew".into(), json!(x >= b));
+            }
+        }
+        if let (Ok(a), Ok(b)) = (i64::try_from(v), i64::try_from(w)) {
+            if let Ok(x) = I54::try_from(a) {
+                out.insert("i54_cmpw".into(), json!(x.partial_cmp(&b).map(|o| format!("{o:?}"))));
+                out.insert("i54_eqw".into(), json!(x == b));
+                out.insert("i54_ltw".into(), json!(x < b));
+                out.insert("i54_gew".into(), json!(x >= b));
+            }
+        }
+    }
     out.insert("status".into(), json!("ok"));
     Value::Object(out)
 }
